@@ -170,6 +170,14 @@ impl Scenario for Order {
                     spec_k.files = p.iter().map(|i| inp.spec.files[*i].clone()).collect();
                 }
             }
+            // the creation order of the metadata files (= readdir order of site-packages) is part of sigma too
+            if !spec_k.extra.is_empty() {
+                let n = spec_k.extra.len();
+                spec_k.extra.rotate_left(k % n);
+                if k % 2 == 1 {
+                    spec_k.extra.reverse();
+                }
+            }
             let root = spec_k.materialise(&sb.root());
             let (oc, r) = scan_then(sim, replay_list(input, k), root, |db, root| (snapshot_opts(db, root, true, false), registration_orders(db, root)));
             out.absorb_outcome(&oc);
